@@ -385,9 +385,13 @@ def unsupported(paths):
     return [p.value for p in paths if p.kind == "unsupported"]
 
 
+_LAST_RUNS_CACHE = {}     # paths of the last law_vcs run per class (re-used by the reachability obligations of the same worker)
+
+
 def law_vcs(repo, ci, laws=("L1", "L2", "L3", "L6", "L6v", "L4a", "L5", "L5d", "L4t")):
     """returns (vcs, undecided) for class ci"""
     R = Runs(repo, ci)
+    _LAST_RUNS_CACHE[ci.name] = R.cache
     vcs, undecided = [], []
     C = ci.name
     hyp = base(ci)
